@@ -40,8 +40,9 @@ AXES = [
     ('id_dtype', ['int32', 'uint32', 'int64', 'uint16']),
     ('time_dtype', ['uint64', 'int64']),
     ('alf_samples', [True, False]),
-    ('attrs', ['none', '1d', '2d', 'wronglen']),
-    ('content', ['finite', 'nan_amp', 'inf_wm', 'nan_similar', 'nan_template', 'nan_features']),
+    ('attrs', ['none', '1d', '2d', 'wronglen', 'col', 'row']),
+    ('content', ['finite', 'nan_amp', 'inf_wm', 'nan_similar', 'nan_template', 'nan_features',
+                 'nan_template_channel']),
     ('monotone', [True, False]),
     ('channel_map', ['identity', 'perm', 'sub', 'sub_high']),
     ('sample_rate', [100.0, 25000.0]),   # 7 / 25000 * 25000 truncates to 6: rounding matters
@@ -82,7 +83,12 @@ def deviations(k):
     for axes in itertools.combinations(range(len(AXES)), k):
         alts = [AXES[i][1][1:] for i in axes]
         for combo in itertools.product(*alts):
-            yield {AXES[i][0]: v for i, v in zip(axes, combo)}
+            dev = {AXES[i][0]: v for i, v in zip(axes, combo)}
+            if dev.get('content') == 'nan_template_channel' and dev.get('spike_clusters') == 'curated':
+                # outside the domain: per-cluster waveforms cannot be built from a template that is
+                # NaN on one whole channel (no largest channel exists); see DESIGN section 13
+                continue
+            yield dev
 
 
 def z(a):
@@ -330,7 +336,10 @@ def explore(ctx):
     ctx.assumptions = ['>= 2 spikes/templates/channels (squeeze is degenerate below)',
                        'at NaN/inf positions of memory-mapped arrays either the stored value or 0 is '
                        'accepted (the statement speaks of fully loaded arrays)',
-                       'ALF naming implies column-sparse templates']
+                       'ALF naming implies column-sparse templates',
+                       'a template that is NaN on one whole channel is combined with uncurated clusters '
+                       'only (with curated clusters the loader has to pick the largest channel of that '
+                       'template, which does not exist; not a well-formed dataset)']
     ctx.run_cases(run_case, cases, sweep='deviation-bounded')
     ctx.notes['deviations_completed'] = K
 
